@@ -112,6 +112,21 @@ fn main() {
             }
             return;
         }
+        "c09-echo" => {
+            let w = vmon::c09::Work {
+                threads: if quick { 16 } else { 48 },
+                batches: if quick { 120 } else { 2500 },
+                workers: if quick { vec![4] } else { vec![1, 2, 4, 16] },
+                kinds: {
+                    let all = vec!["paths", "pathn", "pathw", "query", "form", "json", "raw", "stream", "multi"];
+                    match args.extra.iter().position(|a| a == "--kinds").and_then(|i| args.extra.get(i + 1)) {
+                        Some(k) => all.into_iter().filter(|x| k.split(',').any(|y| y == *x)).collect(),
+                        None => all,
+                    }
+                },
+            };
+            vmon::c09::run(seed, &w)
+        }
         "c05-exhaustive" => {
             let ns = n as u64;
             sharded(n, move |s| vmon::c05::run_exhaustive(s, ns))
